@@ -434,7 +434,7 @@ Definition dec_wrap (z : Z) : wrapmode :=
 Definition dec_align (z : Z) : alignmode :=
   if z =? 0 then AlLeft else if z =? 1 then AlCenter else AlRight.
 
-Definition run_case (l : list Z) : list Z :=
+Definition run_case_str (l : list Z) : list Z :=
   match l with
   | w :: a :: width :: nt :: r =>
       if nt <? 0 then [-1] else
